@@ -125,6 +125,16 @@ func generate(w *mon.W) {
 		s := s
 		w.Do(s, func(r *mon.R) { Check(s, r) })
 	}
+	// a word, an opening parenthesis and something number-like: a call is scanned
+	// token by token whatever the function is called
+	for _, fn := range []string{"f", "datetime", "date", "time", "timespan", "ago", "bin", "long", "dynamic", "now", "not", "case"} {
+		for _, arg := range []string{"2024-01-15", "2024-01-15 10:30:00", "1700000000 + 3600", "2024", "1-2-3", "5m", "1_000", "2024 - x", "2024-x", "1d", "0x10-1", "12:30", "2024-01-15T10:30:00Z", ".5-1", "'2024-01-15'", "1,2", ""} {
+			for _, tail := range []string{")", ") + 1", "", " )"} {
+				s := fn + "(" + arg + tail
+				w.Do(s, func(r *mon.R) { Check(s, r) })
+			}
+		}
+	}
 	// ordered triples whose middle is a punctuation mark or nothing: a token is
 	// scanned the same whatever the two tokens before it were
 	for i, a := range lexemes {
